@@ -2,4 +2,744 @@ import RzmqModel.Model.ReqRep
 /-! Helper lemmas for the REQ/REP state machines (C10). -/
 namespace Rzmq
 
+-- ---------------------------------------------------------------------------------------------
+-- association-list program counters
+-- ---------------------------------------------------------------------------------------------
+
+/-- lookup in a pc association list with default `d` -/
+def pcOf {α : Type} (l : List (Nat × α)) (d : α) (t : Nat) : α :=
+  ((l.find? (·.1 == t)).map (·.2)).getD d
+
+/-- filter-then-append update -/
+def setL {α : Type} (l : List (Nat × α)) (t : Nat) (v : α) : List (Nat × α) :=
+  (l.filter (·.1 != t)) ++ [(t, v)]
+
+theorem pcOf_setL {α : Type} (l : List (Nat × α)) (d : α) (t t' : Nat) (v : α) :
+    pcOf (setL l t v) d t' = if t' = t then v else pcOf l d t' := by
+  induction l with
+  | nil =>
+    by_cases h : t' = t
+    · subst h; simp [pcOf, setL]
+    · have : (t == t') = false := by simp; exact fun e => h e.symm
+      simp [pcOf, setL, h, this]
+  | cons a l ih =>
+    unfold pcOf setL at ih ⊢
+    by_cases ha : a.1 = t
+    · have h1 : (a.1 != t) = false := by simp [ha]
+      rw [List.filter_cons, h1]
+      simp only [Bool.false_eq_true, if_false]
+      rw [ih]
+      by_cases h : t' = t
+      · simp [h]
+      · have : (a.1 == t') = false := by simp [ha]; exact fun e => h e.symm
+        simp [h, this]
+    · have h1 : (a.1 != t) = true := by simp [ha]
+      rw [List.filter_cons, h1]
+      simp only [if_true, List.cons_append, List.find?_cons]
+      by_cases hb : a.1 = t'
+      · have : t' ≠ t := by intro e; exact ha (hb.trans e)
+        simp [hb, this]
+      · have : (a.1 == t') = false := by simp [hb]
+        simp only [this]
+        exact ih
+
+-- ---------------------------------------------------------------------------------------------
+-- REQ
+-- ---------------------------------------------------------------------------------------------
+
+theorem ReqSys.pc_eq (s : ReqSys) (t : Nat) : s.pc t = pcOf s.pcs .idle t := rfl
+
+theorem ReqSys.pc_setPc (s : ReqSys) (t t' : Nat) (v : ReqPc) :
+    (s.setPc t v).pc t' = if t' = t then v else s.pc t' := by
+  show pcOf (setL s.pcs t v) .idle t' = _
+  rw [pcOf_setL]; rfl
+
+theorem ReqSys.pc_setPc_same (s : ReqSys) (t : Nat) (v : ReqPc) : (s.setPc t v).pc t = v := by
+  simp [ReqSys.pc_setPc]
+
+theorem ReqSys.pc_setPc_other (s : ReqSys) (t t' : Nat) (v : ReqPc) (h : t' ≠ t) :
+    (s.setPc t v).pc t' = s.pc t' := by
+  simp [ReqSys.pc_setPc, h]
+
+@[simp] theorem ReqSys.setPc_claim (s : ReqSys) (t v) : (s.setPc t v).claim = s.claim := rfl
+@[simp] theorem ReqSys.setPc_guard (s : ReqSys) (t v) : (s.setPc t v).exchangeGuard = s.exchangeGuard := rfl
+@[simp] theorem ReqSys.setPc_sg (s : ReqSys) (t v) : (s.setPc t v).successGuarded = s.successGuarded := rfl
+@[simp] theorem ReqSys.setPc_st (s : ReqSys) (t v) : (s.setPc t v).st = s.st := rfl
+@[simp] theorem ReqSys.setPc_atPeer (s : ReqSys) (t v) : (s.setPc t v).atPeer = s.atPeer := rfl
+@[simp] theorem ReqSys.setPc_replies (s : ReqSys) (t v) : (s.setPc t v).replies = s.replies := rfl
+@[simp] theorem ReqSys.setPc_log (s : ReqSys) (t v) : (s.setPc t v).log = s.log := rfl
+@[simp] theorem ReqSys.setPc_pcs (s : ReqSys) (t v) : (s.setPc t v).pcs = setL s.pcs t v := rfl
+
+/-- "`b` ↔ exactly one task is in `sendInFlight`, and if not `b` then none is" -/
+structure Sif (pcs : List (Nat × ReqPc)) (b : Bool) : Prop where
+  only : ∀ t, pcOf pcs .idle t = .sendInFlight → b = true
+  ex : b = true → ∃ t, pcOf pcs .idle t = .sendInFlight
+  uniq : ∀ t t', pcOf pcs .idle t = .sendInFlight → pcOf pcs .idle t' = .sendInFlight → t = t'
+
+theorem Sif.cast {pcs : List (Nat × ReqPc)} {b b' : Bool} (h : Sif pcs b) (hb : b' = b) : Sif pcs b' := by
+  subst hb; exact h
+
+/-- overwriting a pc that is not `sendInFlight` by one that is not `sendInFlight` -/
+theorem Sif.set_other {pcs : List (Nat × ReqPc)} {b b' : Bool} {t : Nat} {v : ReqPc} (h : Sif pcs b)
+    (h1 : pcOf pcs .idle t ≠ .sendInFlight) (h2 : v ≠ .sendInFlight) (hb : b' = b) :
+    Sif (setL pcs t v) b' := by
+  subst hb
+  have key : ∀ t', pcOf (setL pcs t v) .idle t' = .sendInFlight ↔ pcOf pcs .idle t' = .sendInFlight := by
+    intro t'
+    rw [pcOf_setL]
+    split
+    · rename_i e; subst e
+      exact ⟨fun h => absurd h h2, fun h => absurd h h1⟩
+    · exact Iff.rfl
+  refine ⟨fun t' hp => h.only t' ((key t').1 hp), fun hb => ?_, fun t1 t2 h1 h2 =>
+    h.uniq t1 t2 ((key t1).1 h1) ((key t2).1 h2)⟩
+  obtain ⟨t', ht'⟩ := h.ex hb
+  exact ⟨t', (key t').2 ht'⟩
+
+/-- the unique in-flight sender leaves `sendInFlight`: nobody is in flight -/
+theorem Sif.clear {pcs : List (Nat × ReqPc)} {b b' : Bool} {t : Nat} {v : ReqPc} (h : Sif pcs b)
+    (h1 : pcOf pcs .idle t = .sendInFlight) (h2 : v ≠ .sendInFlight) (hb : b' = false) :
+    Sif (setL pcs t v) b' := by
+  subst hb
+  have key : ∀ t', pcOf (setL pcs t v) .idle t' ≠ .sendInFlight := by
+    intro t'
+    rw [pcOf_setL]
+    split
+    · exact h2
+    · rename_i hne
+      exact fun hp => hne (h.uniq t' t hp h1)
+  exact ⟨fun t' hp => absurd hp (key t'), fun hb => (by cases hb), fun t1 _ h1 _ => absurd h1 (key t1)⟩
+
+/-- nobody in flight, `t` claims -/
+theorem Sif.claim {pcs : List (Nat × ReqPc)} {b' : Bool} {t : Nat} (h : Sif pcs false) (hb : b' = true) :
+    Sif (setL pcs t .sendInFlight) b' := by
+  subst hb
+  have key : ∀ t', pcOf (setL pcs t .sendInFlight) .idle t' = .sendInFlight → t' = t := by
+    intro t' hp
+    rw [pcOf_setL] at hp
+    split at hp
+    · assumption
+    · exact absurd (h.only t' hp) (by simp)
+  refine ⟨fun _ _ => rfl, fun _ => ⟨t, by simp [pcOf_setL]⟩, fun t1 t2 h1 h2 => ?_⟩
+  rw [key t1 h1, key t2 h2]
+
+def ReqState.isExp : ReqState → Bool
+  | .expectingReply _ => true
+  | _ => false
+
+@[simp] theorem ReqState.isExp_ready : ReqState.readyToSend.isExp = false := rfl
+@[simp] theorem ReqState.isExp_sending : ReqState.sending.isExp = false := rfl
+@[simp] theorem ReqState.isExp_exp (x : Nat) : (ReqState.expectingReply x).isExp = true := rfl
+
+theorem ReqState.isExp_iff (st : ReqState) : st.isExp = true ↔ ∃ x, st = .expectingReply x := by
+  cases st <;> simp [ReqState.isExp]
+
+/-- the shape of (`st` expects a reply, `log`) pairs: an abstract three-rule system simulated by the REQ machine -/
+inductive ReqShape : Bool → List Op → Prop where
+  | nil : ReqShape false []
+  | send {l : List Op} : ReqShape false l → ReqShape true (l ++ [.send])
+  | recv {b : Bool} {l : List Op} : ReqShape b l → l ≠ [] → ReqShape false (l ++ [.recv])
+  | abandoned {l : List Op} : ReqShape true l → ReqShape false (l ++ [.abandoned])
+
+/-- the inductive invariant of the REQ machine (current code shape: `claim`, `exchangeGuard`, successful
+receives not guarded) -/
+structure ReqInv (s : ReqSys) : Prop where
+  claim : s.claim = true
+  guard : s.exchangeGuard = true
+  sg : s.successGuarded = false
+  out : s.atPeer + s.replies ≤ (if s.st.isExp then 1 else 0) + s.log.count .abandoned
+  bound : s.atPeer + s.replies + s.log.count .recv ≤ s.log.count .send
+  sif : Sif s.pcs (s.st == .sending)
+  shape : ReqShape s.st.isExp s.log
+
+theorem ReqInv.init : ReqInv {} := by
+  refine ⟨rfl, rfl, rfl, by simp, by simp, ?_, ReqShape.nil⟩
+  refine ⟨?_, by simp, ?_⟩ <;> simp [pcOf]
+
+theorem ReqInv.step {s : ReqSys} (h : ReqInv s) (e : ReqEv) : ReqInv (s.step e) := by
+  obtain ⟨hc, hg, hsg, hout, hbound, hsif, hshape⟩ := h
+  cases e with
+  | sendBegin t =>
+    simp only [ReqSys.step]
+    split
+    · exact ⟨hc, hg, hsg, hout, hbound, hsif, hshape⟩
+    · split
+      · rename_i hst
+        have hst : s.st = .readyToSend := by simpa using hst
+        simp only [hc]
+        refine ⟨by simp, hg, hsg, ?_, hbound, ?_, ?_⟩
+        · simpa [hst] using hout
+        · exact (hsif.cast (b' := false) (by simp [hst])).claim (by simp)
+        · simpa [hst] using hshape
+      · exact ⟨hc, hg, hsg, hout, hbound, hsif, hshape⟩
+  | sendOk t =>
+    simp only [ReqSys.step]
+    split
+    · exact ⟨hc, hg, hsg, hout, hbound, hsif, hshape⟩
+    · rename_i hpc
+      have hpc : s.pc t = .sendInFlight := by simpa using hpc
+      have hst : s.st = .sending := by simpa using hsif.only t hpc
+      refine ⟨hc, hg, hsg, ?_, ?_, ?_, ?_⟩
+      · simp [hst] at hout
+        simp [List.count_append]; omega
+      · simp [List.count_append]; omega
+      · exact hsif.clear hpc (by simp) (by simp)
+      · exact ReqShape.send (by simpa [hst] using hshape)
+  | sendFail t =>
+    simp only [ReqSys.step]
+    split
+    · exact ⟨hc, hg, hsg, hout, hbound, hsif, hshape⟩
+    · rename_i hpc
+      have hpc : s.pc t = .sendInFlight := by simpa using hpc
+      have hst : s.st = .sending := by simpa using hsif.only t hpc
+      refine ⟨hc, hg, hsg, ?_, hbound, ?_, ?_⟩
+      · simpa [hc, hst] using hout
+      · exact hsif.clear hpc (by simp) (by simp [hc, hst])
+      · simpa [hc, hst] using hshape
+  | recvBegin t =>
+    simp only [ReqSys.step]
+    split
+    · exact ⟨hc, hg, hsg, hout, hbound, hsif, hshape⟩
+    · rename_i hpc
+      have hpc : s.pc t = .idle := by simpa using hpc
+      have hpc' : pcOf s.pcs .idle t ≠ .sendInFlight := by
+        rw [← ReqSys.pc_eq, hpc]; simp
+      split
+      · exact ⟨hc, hg, hsg, hout, hbound, hsif.set_other hpc' (by simp) rfl, hshape⟩
+      · exact ⟨hc, hg, hsg, hout, hbound, hsif, hshape⟩
+  | recvGot t =>
+    simp only [ReqSys.step]
+    split
+    · rename_i x hpc
+      have hpc' : pcOf s.pcs .idle t ≠ .sendInFlight := by
+        rw [← ReqSys.pc_eq, hpc]; simp
+      split
+      · exact ⟨hc, hg, hsg, hout, hbound, hsif, hshape⟩
+      · rename_i hrep
+        have hrep : s.replies ≠ 0 := by simpa using hrep
+        have hne : s.log ≠ [] := by
+          intro h0; rw [h0] at hbound; simp at hbound; exact hrep hbound.2
+        simp only [hsg, Bool.false_and, Bool.false_eq_true, if_false]
+        rcases hst : s.st with _ | _ | y
+        · refine ⟨hc, hg, rfl, ?_, ?_, ?_, ?_⟩
+          · simp [hst] at hout
+            simp [List.count_append]; omega
+          · simp [List.count_append]; omega
+          · exact hsif.set_other hpc' (by simp) (by rw [hst]; rfl)
+          · exact ReqShape.recv hshape hne
+        · refine ⟨hc, hg, rfl, ?_, ?_, ?_, ?_⟩
+          · simp [hst] at hout
+            simp [List.count_append]; omega
+          · simp [List.count_append]; omega
+          · exact hsif.set_other hpc' (by simp) (by rw [hst]; rfl)
+          · exact ReqShape.recv hshape hne
+        · refine ⟨hc, hg, rfl, ?_, ?_, ?_, ?_⟩
+          · simp [hst] at hout
+            simp [List.count_append]; omega
+          · simp [List.count_append]; omega
+          · exact hsif.set_other hpc' (by simp) (by rw [hst]; rfl)
+          · exact ReqShape.recv hshape hne
+    · exact ⟨hc, hg, hsg, hout, hbound, hsif, hshape⟩
+  | recvFail t =>
+    simp only [ReqSys.step]
+    split
+    · rename_i x hpc
+      have hpc' : pcOf s.pcs .idle t ≠ .sendInFlight := by
+        rw [← ReqSys.pc_eq, hpc]; simp
+      have plain : ReqInv (s.setPc t .idle) :=
+        ⟨hc, hg, hsg, hout, hbound, hsif.set_other hpc' (by simp) rfl, hshape⟩
+      split
+      · rename_i y hst
+        split
+        · refine ⟨hc, hg, hsg, ?_, ?_, ?_, ?_⟩
+          · simp [hst] at hout
+            simp [List.count_append]; omega
+          · simp [List.count_append]; omega
+          · exact hsif.set_other hpc' (by simp) (by rw [hst]; rfl)
+          · exact ReqShape.abandoned (by simpa [hst] using hshape)
+        · simp only [hg]
+          exact plain
+      · exact plain
+    · exact ⟨hc, hg, hsg, hout, hbound, hsif, hshape⟩
+  | peerReplies =>
+    simp only [ReqSys.step]
+    split
+    · exact ⟨hc, hg, hsg, hout, hbound, hsif, hshape⟩
+    · rename_i hat
+      have hat : s.atPeer ≠ 0 := by simpa using hat
+      refine ⟨hc, hg, hsg, ?_, ?_, hsif, hshape⟩
+      · show s.atPeer - 1 + (s.replies + 1) ≤ (if s.st.isExp then 1 else 0) + s.log.count .abandoned
+        omega
+      · show s.atPeer - 1 + (s.replies + 1) + s.log.count .recv ≤ s.log.count .send
+        omega
+  | peerDetached =>
+    simp only [ReqSys.step]
+    split
+    · rename_i x hst
+      refine ⟨hc, hg, hsg, by simp, ?_, hsif.cast (by rw [hst]; rfl), ?_⟩
+      · simp [List.count_append]; omega
+      · exact ReqShape.abandoned (by simpa [hst] using hshape)
+    · refine ⟨hc, hg, hsg, ?_, ?_, hsif, hshape⟩
+      · show 0 + 0 ≤ (if s.st.isExp then 1 else 0) + s.log.count .abandoned
+        omega
+      · show 0 + 0 + s.log.count .recv ≤ s.log.count .send
+        omega
+
+theorem ReqInv.run {s : ReqSys} (h : ReqInv s) (evs : List ReqEv) : ReqInv (s.run evs) := by
+  induction evs generalizing s with
+  | nil => exact h
+  | cons e evs ih => exact ih (h.step e)
+
+theorem ReqInv.reach (evs : List ReqEv) : ReqInv (ReqSys.run {} evs) := ReqInv.init.run evs
+
+-- ---------------------------------------------------------------------------------------------
+-- consequences of the log shape
+-- ---------------------------------------------------------------------------------------------
+
+/-- the flag `sendsSeparated` ends with (`none`: two sends in a row) -/
+def sepEnd : Bool → List Op → Option Bool
+  | b, [] => some b
+  | true, .send :: _ => none
+  | false, .send :: rest => sepEnd true rest
+  | _, .recv :: rest => sepEnd false rest
+  | _, .abandoned :: rest => sepEnd false rest
+
+theorem sendsSeparated_eq_sepEnd (b : Bool) (l : List Op) : sendsSeparated b l = (sepEnd b l).isSome := by
+  induction l generalizing b with
+  | nil => simp [sendsSeparated, sepEnd]
+  | cons a l ih => cases b <;> cases a <;> simp [sendsSeparated, sepEnd, ih]
+
+theorem sepEnd_append (b : Bool) (l m : List Op) :
+    sepEnd b (l ++ m) = (sepEnd b l).bind (fun c => sepEnd c m) := by
+  induction l generalizing b with
+  | nil => simp [sepEnd]
+  | cons a l ih => cases b <;> cases a <;> simp [sepEnd, ih]
+
+theorem ReqShape.sepEnd {b : Bool} {l : List Op} (h : ReqShape b l) : sepEnd false l = some b := by
+  induction h with
+  | nil => rfl
+  | send _ ih => simp [sepEnd_append, ih, Rzmq.sepEnd]
+  | @recv b _ _ _ ih => cases b <;> simp [sepEnd_append, ih, Rzmq.sepEnd]
+  | abandoned _ ih => simp [sepEnd_append, ih, Rzmq.sepEnd]
+
+theorem ReqShape.getLast {b : Bool} {l : List Op} (h : ReqShape b l) :
+    b = true ↔ l.getLast? = some .send := by
+  cases h <;> simp
+
+/-- what `alternates` expects next after reading the list (`none`: the list does not alternate) -/
+def nextOp : Op → List Op → Option Op
+  | x, [] => some x
+  | .send, .send :: rest => nextOp .recv rest
+  | .recv, .recv :: rest => nextOp .send rest
+  | .recv, .abandoned :: rest => nextOp .send rest
+  | _, _ => none
+
+theorem alternates_eq_nextOp (x : Op) (l : List Op) : alternates x l = (nextOp x l).isSome := by
+  induction l generalizing x with
+  | nil => simp [alternates, nextOp]
+  | cons a l ih =>
+    cases x <;> cases a <;> simp [alternates, nextOp, ih]
+
+theorem nextOp_append (x : Op) (l m : List Op) :
+    nextOp x (l ++ m) = (nextOp x l).bind (fun y => nextOp y m) := by
+  induction l generalizing x with
+  | nil => simp [nextOp]
+  | cons a l ih =>
+    cases x <;> cases a <;> simp [nextOp, ih]
+
+-- ---------------------------------------------------------------------------------------------
+-- loose alternation (holds for every history)
+-- ---------------------------------------------------------------------------------------------
+
+/-- states of the loose alternation automaton -/
+inductive LooseSt where
+  | start          -- nothing logged yet
+  | afterSend      -- last op was `send`
+  | mixed          -- a `send`, then one or more `recv`, no `abandoned` since that send
+  | done           -- the last exchange was abandoned (possibly followed by late `recv`s)
+deriving DecidableEq, Repr
+
+/-- loose alternation: the first op is `send`; a `send` never directly follows a `send` (there is a `recv` or an
+`abandoned` in between); at most one `abandoned` per `send`; further `recv`s (replies of abandoned exchanges
+delivered late) may appear anywhere after the first `send`. -/
+def looseStep : LooseSt → Op → Option LooseSt
+  | .start, .send => some .afterSend
+  | .start, _ => none
+  | .afterSend, .send => none
+  | .afterSend, .recv => some .mixed
+  | .afterSend, .abandoned => some .done
+  | .mixed, .send => some .afterSend
+  | .mixed, .recv => some .mixed
+  | .mixed, .abandoned => some .done
+  | .done, .send => some .afterSend
+  | .done, .recv => some .done
+  | .done, .abandoned => none
+
+def looseRun : LooseSt → List Op → Option LooseSt
+  | q, [] => some q
+  | q, op :: rest => (looseStep q op).bind (fun q' => looseRun q' rest)
+
+def alternatesLoose (l : List Op) : Bool := (looseRun .start l).isSome
+
+theorem looseRun_append (q : LooseSt) (l m : List Op) :
+    looseRun q (l ++ m) = (looseRun q l).bind (fun q' => looseRun q' m) := by
+  induction l generalizing q with
+  | nil => simp [looseRun]
+  | cons a l ih =>
+    simp only [List.cons_append, looseRun]
+    cases looseStep q a with
+    | none => simp
+    | some q' => simp [ih]
+
+/-- strict alternation implies loose alternation -/
+theorem looseRun_of_nextOp (l : List Op) :
+    (∀ q y, q ≠ .afterSend → nextOp .send l = some y →
+      ∃ q', looseRun q l = some q' ∧ (q' = .afterSend ↔ y = .recv) ∧ (y = .send ∨ y = .recv)) ∧
+    (∀ y, nextOp .recv l = some y →
+      ∃ q', looseRun .afterSend l = some q' ∧ (q' = .afterSend ↔ y = .recv) ∧ (y = .send ∨ y = .recv)) := by
+  induction l with
+  | nil =>
+    constructor
+    · intro q y hq h
+      simp [nextOp] at h; subst h
+      exact ⟨q, rfl, by simp [hq], Or.inl rfl⟩
+    · intro y h
+      simp [nextOp] at h; subst h
+      exact ⟨.afterSend, rfl, by simp, Or.inr rfl⟩
+  | cons a l ih =>
+    obtain ⟨ih1, ih2⟩ := ih
+    constructor
+    · intro q y hq h
+      cases a with
+      | send =>
+        simp only [nextOp] at h
+        obtain ⟨q', h1, h2⟩ := ih2 y h
+        refine ⟨q', ?_, h2⟩
+        cases q <;> simp_all [looseRun, looseStep]
+      | recv => simp [nextOp] at h
+      | abandoned => simp [nextOp] at h
+    · intro y h
+      cases a with
+      | send => simp [nextOp] at h
+      | recv =>
+        simp only [nextOp] at h
+        obtain ⟨q', h1, h2⟩ := ih1 .mixed y (by simp) h
+        exact ⟨q', by simp [looseRun, looseStep, h1], h2⟩
+      | abandoned =>
+        simp only [nextOp] at h
+        obtain ⟨q', h1, h2⟩ := ih1 .done y (by simp) h
+        exact ⟨q', by simp [looseRun, looseStep, h1], h2⟩
+
+theorem alternatesLoose_of_alternates (l : List Op) (h : alternates .send l = true) :
+    alternatesLoose l = true := by
+  rw [alternates_eq_nextOp, Option.isSome_iff_exists] at h
+  obtain ⟨y, hy⟩ := h
+  obtain ⟨q', h1, _⟩ := (looseRun_of_nextOp l).1 .start y (by simp) hy
+  simp [alternatesLoose, h1]
+
+/-- a non-empty loosely alternating log starts with `send` -/
+theorem head_send_of_alternatesLoose (a : Op) (l : List Op) (h : alternatesLoose (a :: l) = true) :
+    a = .send := by
+  cases a <;> simp [alternatesLoose, looseRun, looseStep] at h ⊢
+
+theorem ReqShape.loose {b : Bool} {l : List Op} (h : ReqShape b l) :
+    ∃ q, looseRun .start l = some q ∧ (q = .afterSend ↔ b = true) ∧ (q = .start → l = []) := by
+  induction h with
+  | nil => exact ⟨.start, rfl, by simp, fun _ => rfl⟩
+  | send _ ih =>
+    obtain ⟨q, h1, h2, _⟩ := ih
+    refine ⟨.afterSend, ?_, by simp, by simp⟩
+    rw [looseRun_append, h1]
+    cases q <;> simp_all [looseRun, looseStep]
+  | @recv b l _ hne ih =>
+    obtain ⟨q, h1, h2, h3⟩ := ih
+    cases q with
+    | start => exact absurd (h3 rfl) hne
+    | afterSend => exact ⟨.mixed, by rw [looseRun_append, h1]; simp [looseRun, looseStep], by simp, by simp⟩
+    | mixed => exact ⟨.mixed, by rw [looseRun_append, h1]; simp [looseRun, looseStep], by simp, by simp⟩
+    | done => exact ⟨.done, by rw [looseRun_append, h1]; simp [looseRun, looseStep], by simp, by simp⟩
+  | abandoned _ ih =>
+    obtain ⟨q, h1, h2, _⟩ := ih
+    have hq : q = .afterSend := h2.2 rfl
+    subst hq
+    exact ⟨.done, by rw [looseRun_append, h1]; simp [looseRun, looseStep], by simp, by simp⟩
+
+/-- every history: the log alternates loosely (kept from the previous round; now implied by
+`C10.req_no_double_send` + `C10.req_state_tracks_log`, but it also says the log starts with `send`) -/
+theorem req_alternates_fixed (evs : List ReqEv) : alternatesLoose (ReqSys.run {} evs).log = true := by
+  obtain ⟨q, h, _⟩ := (ReqInv.reach evs).shape.loose
+  simp [alternatesLoose, h]
+
+-- ---------------------------------------------------------------------------------------------
+-- strict alternation, as long as no exchange is given up
+-- ---------------------------------------------------------------------------------------------
+
+/-- log-shape invariant, strict form -/
+def StrictInv (s : ReqSys) : Prop :=
+  nextOp .send s.log = some (if s.st.isExp then .recv else .send) ∧ s.log.count .abandoned = 0
+
+theorem StrictInv.init : StrictInv {} := ⟨rfl, rfl⟩
+
+theorem StrictInv.of_eq {s s' : ReqSys} (h : StrictInv s) (hl : s'.log = s.log)
+    (he : s'.st.isExp = s.st.isExp) : StrictInv s' := by
+  unfold StrictInv at *
+  rw [hl, he]; exact h
+
+theorem StrictInv.step {s : ReqSys} (hb : ReqInv s) (h : StrictInv s) (e : ReqEv)
+    (hgood : e.abandons = false) : StrictInv (s.step e) := by
+  obtain ⟨hc, hg, hsg, hout, hbound, hsif, hshape⟩ := hb
+  cases e with
+  | sendBegin t =>
+    simp only [ReqSys.step]
+    split
+    · exact h
+    · split
+      · rename_i hst
+        have hst : s.st = .readyToSend := by simpa using hst
+        simp only [hc]
+        exact h.of_eq rfl (by simp [hst])
+      · exact h.of_eq rfl rfl
+  | sendOk t =>
+    simp only [ReqSys.step]
+    split
+    · exact h
+    · rename_i hpc
+      have hpc : s.pc t = .sendInFlight := by simpa using hpc
+      have hst : s.st = .sending := by simpa using hsif.only t hpc
+      obtain ⟨h1, h2⟩ := h
+      refine ⟨?_, ?_⟩
+      · show nextOp .send (s.log ++ [.send]) = _
+        rw [nextOp_append, h1, hst]
+        simp [nextOp]
+      · show (s.log ++ [Op.send]).count Op.abandoned = 0
+        simp [List.count_append, h2]
+  | sendFail t =>
+    simp only [ReqSys.step]
+    split
+    · exact h
+    · rename_i hpc
+      have hpc : s.pc t = .sendInFlight := by simpa using hpc
+      have hst : s.st = .sending := by simpa using hsif.only t hpc
+      exact h.of_eq rfl (by simp [hc, hst])
+  | recvBegin t =>
+    simp only [ReqSys.step]
+    split
+    · exact h
+    · split
+      · exact h.of_eq rfl rfl
+      · exact h.of_eq rfl rfl
+  | recvGot t =>
+    simp only [ReqSys.step]
+    split
+    · rename_i x hpc
+      split
+      · exact h
+      · rename_i hrep
+        have hrep : s.replies ≠ 0 := by simpa using hrep
+        obtain ⟨h1, h2⟩ := h
+        have hexp : s.st.isExp = true := by
+          cases he : s.st.isExp with
+          | true => rfl
+          | false => simp [he, h2] at hout; exact absurd hout.2 hrep
+        obtain ⟨y, hst⟩ := (ReqState.isExp_iff _).1 hexp
+        refine ⟨?_, ?_⟩
+        · show nextOp .send (s.log ++ [.recv]) = _
+          rw [nextOp_append, h1]
+          simp [hst, hsg, nextOp]
+        · show (s.log ++ [Op.recv]).count Op.abandoned = 0
+          simp [List.count_append, h2]
+    · exact h
+  | recvFail t => simp [ReqEv.abandons] at hgood
+  | peerReplies =>
+    simp only [ReqSys.step]
+    split
+    · exact h
+    · exact h.of_eq rfl rfl
+  | peerDetached => simp [ReqEv.abandons] at hgood
+
+theorem StrictInv.run {s : ReqSys} (hb : ReqInv s) (h : StrictInv s) (evs : List ReqEv)
+    (hgood : ∀ e ∈ evs, e.abandons = false) : StrictInv (s.run evs) := by
+  induction evs generalizing s with
+  | nil => exact h
+  | cons e evs ih =>
+    exact ih (hb.step e) (h.step hb e (hgood e (by simp))) (fun e' he' => hgood e' (by simp [he']))
+
+theorem StrictInv.reach (evs : List ReqEv) (hgood : ∀ e ∈ evs, e.abandons = false) :
+    StrictInv (ReqSys.run {} evs) :=
+  StrictInv.init.run ReqInv.init evs hgood
+
+-- ---------------------------------------------------------------------------------------------
+-- REP
+-- ---------------------------------------------------------------------------------------------
+
+theorem RepSys.pc_eq (s : RepSys) (t : Nat) : s.pc t = pcOf s.pcs .idle t := rfl
+
+theorem RepSys.pc_setPc (s : RepSys) (t t' : Nat) (v : RepPc) :
+    (s.setPc t v).pc t' = if t' = t then v else s.pc t' := by
+  show pcOf (setL s.pcs t v) .idle t' = _
+  rw [pcOf_setL]; rfl
+
+theorem RepSys.pc_setPc_same (s : RepSys) (t : Nat) (v : RepPc) : (s.setPc t v).pc t = v := by
+  simp [RepSys.pc_setPc]
+
+theorem RepSys.pc_setPc_other (s : RepSys) (t t' : Nat) (v : RepPc) (h : t' ≠ t) :
+    (s.setPc t v).pc t' = s.pc t' := by
+  simp [RepSys.pc_setPc, h]
+
+@[simp] theorem RepSys.setPc_claim (s : RepSys) (t v) : (s.setPc t v).claim = s.claim := rfl
+@[simp] theorem RepSys.setPc_st (s : RepSys) (t v) : (s.setPc t v).st = s.st := rfl
+@[simp] theorem RepSys.setPc_pending (s : RepSys) (t v) : (s.setPc t v).pending = s.pending := rfl
+@[simp] theorem RepSys.setPc_log (s : RepSys) (t v) : (s.setPc t v).log = s.log := rfl
+
+/-- parser state of `repWellFormed`: `some none` = between exchanges, `some (some src)` = a request from `src`
+is open, `none` = ill-formed -/
+def repOpen : Option Nat → List RepOp → Option (Option Nat)
+  | o, [] => some o
+  | none, .recv s :: rest => repOpen (some s) rest
+  | some s, .send d :: rest => if s = d then repOpen none rest else none
+  | some s, .abandoned d :: rest => if s = d then repOpen none rest else none
+  | _, _ => none
+
+theorem repWellFormed_eq_repOpen : ∀ l : List RepOp, repWellFormed l = (repOpen none l).isSome
+  | [] => by simp [repWellFormed, repOpen]
+  | [.recv _] => by simp [repWellFormed, repOpen]
+  | .recv s :: .send d :: rest => by
+    by_cases h : s = d <;> simp [repWellFormed, repOpen, h, repWellFormed_eq_repOpen rest]
+  | .recv s :: .abandoned d :: rest => by
+    by_cases h : s = d <;> simp [repWellFormed, repOpen, h, repWellFormed_eq_repOpen rest]
+  | .recv _ :: .recv _ :: _ => by simp [repWellFormed, repOpen]
+  | .send _ :: _ => by simp [repWellFormed, repOpen]
+  | .abandoned _ :: _ => by simp [repWellFormed, repOpen]
+
+theorem repOpen_append (o : Option Nat) (l m : List RepOp) :
+    repOpen o (l ++ m) = (repOpen o l).bind (fun y => repOpen y m) := by
+  induction l generalizing o with
+  | nil => simp [repOpen]
+  | cons a l ih =>
+    cases o <;> cases a <;> simp [repOpen, ih]
+    all_goals (split <;> simp)
+
+def RepState.openPeer : RepState → Option Nat
+  | .receivedRequest p => some p
+  | _ => none
+
+/-- the inductive invariant of the REP machine (current code shape, `claim = true`) -/
+structure RepInv (s : RepSys) : Prop where
+  claim : s.claim = true
+  log : repOpen none s.log = some s.st.openPeer
+  only : ∀ t, s.pc t = .recvInFlight → s.st = .receiving
+  ex : s.st = .receiving → ∃ t, s.pc t = .recvInFlight
+  uniq : ∀ t t', s.pc t = .recvInFlight → s.pc t' = .recvInFlight → t = t'
+
+theorem RepInv.init : RepInv {} := by
+  refine ⟨rfl, by simp [repOpen, RepState.openPeer], ?_, by simp, ?_⟩ <;> simp [RepSys.pc]
+
+theorem RepInv.step {s : RepSys} (h : RepInv s) (e : RepEv) : RepInv (s.step e) := by
+  obtain ⟨hc, hlog, honly, hex, huniq⟩ := h
+  cases e with
+  | recvBegin t =>
+    simp only [RepSys.step]
+    split
+    · exact ⟨hc, hlog, honly, hex, huniq⟩
+    · rename_i hpc
+      split
+      · rename_i hst
+        have hst : s.st = .readyToReceive := by simpa using hst
+        simp only [hc]
+        refine ⟨by simp, ?_, ?_, ?_, ?_⟩
+        · simpa [hst, RepState.openPeer] using hlog
+        · intro t' _; simp
+        · intro _; exact ⟨t, by simp [RepSys.pc_setPc]⟩
+        · have hno : ∀ t', t' ≠ t →
+              ¬ (RepSys.setPc { s with st := .receiving } t .recvInFlight).pc t' = .recvInFlight := by
+            intro t' hne hp
+            rw [RepSys.pc_setPc_other _ _ _ _ hne] at hp
+            have := honly t' hp
+            rw [hst] at this; cases this
+          intro t1 t2 h1 h2
+          have e1 : t1 = t := Classical.byContradiction fun hne => hno t1 hne h1
+          have e2 : t2 = t := Classical.byContradiction fun hne => hno t2 hne h2
+          rw [e1, e2]
+      · exact ⟨hc, hlog, honly, hex, huniq⟩
+  | recvGot t =>
+    simp only [RepSys.step]
+    split
+    · exact ⟨hc, hlog, honly, hex, huniq⟩
+    · rename_i hpc
+      have hpc : s.pc t = .recvInFlight := by simpa using hpc
+      have hst := honly t hpc
+      split
+      · exact ⟨hc, hlog, honly, hex, huniq⟩
+      · rename_i src rest hpend
+        have hno : ∀ t', ¬ (RepSys.setPc { s with pending := rest, st := .receivedRequest src, log := s.log ++ [.recv src] } t .idle).pc t' = .recvInFlight := by
+          intro t' hp
+          rw [RepSys.pc_setPc] at hp
+          split at hp
+          · cases hp
+          · rename_i hne
+            exact hne (huniq t' t hp hpc)
+        refine ⟨by simp [hc], ?_, ?_, ?_, ?_⟩
+        · simp [hst, RepState.openPeer] at hlog
+          simp [repOpen_append, hlog, repOpen, RepState.openPeer]
+        · intro t' hp; exact absurd hp (hno t')
+        · intro h; simp at h
+        · intro t1 _ h1; exact absurd h1 (hno t1)
+  | recvGiveUp t =>
+    simp only [RepSys.step]
+    split
+    · exact ⟨hc, hlog, honly, hex, huniq⟩
+    · rename_i hpc
+      have hpc : s.pc t = .recvInFlight := by simpa using hpc
+      have hst := honly t hpc
+      have hno : ∀ t', ¬ (RepSys.setPc { s with st := if (s.claim && s.st == .receiving) = true
+            then .readyToReceive else s.st } t .idle).pc t' = .recvInFlight := by
+        intro t' hp
+        rw [RepSys.pc_setPc] at hp
+        split at hp
+        · cases hp
+        · rename_i hne
+          exact hne (huniq t' t hp hpc)
+      refine ⟨by simp [hc], ?_, ?_, ?_, ?_⟩
+      · simp [hst, RepState.openPeer] at hlog
+        simp [hc, hst, hlog, RepState.openPeer]
+      · intro t' hp; exact absurd hp (hno t')
+      · intro h; simp [hc, hst] at h
+      · intro t1 _ h1; exact absurd h1 (hno t1)
+  | sendReply t =>
+    simp only [RepSys.step]
+    split
+    · rename_i peer hst
+      refine ⟨hc, ?_, ?_, ?_, huniq⟩
+      · simp [hst, RepState.openPeer] at hlog
+        simp [repOpen_append, hlog, repOpen, RepState.openPeer]
+      · intro t' hp
+        have := honly t' hp
+        rw [hst] at this; cases this
+      · intro h; simp at h
+    · exact ⟨hc, hlog, honly, hex, huniq⟩
+  | peerRequests peer =>
+    simp only [RepSys.step]
+    exact ⟨hc, hlog, honly, hex, huniq⟩
+  | peerDetached peer =>
+    simp only [RepSys.step]
+    by_cases hst : s.st = .receivedRequest peer
+    · refine ⟨hc, ?_, ?_, ?_, huniq⟩
+      · simp [hst, RepState.openPeer] at hlog
+        simp [hst, repOpen_append, hlog, repOpen, RepState.openPeer]
+      · intro t' hp
+        have := honly t' hp
+        rw [hst] at this; cases this
+      · intro h; simp [hst] at h
+    · refine ⟨hc, ?_, ?_, ?_, huniq⟩
+      · simp [hst, hlog]
+      · intro t' hp; simpa [hst] using honly t' hp
+      · intro h; simp [hst] at h; exact hex h
+
+theorem RepInv.run {s : RepSys} (h : RepInv s) (evs : List RepEv) : RepInv (s.run evs) := by
+  induction evs generalizing s with
+  | nil => exact h
+  | cons e evs ih => exact ih (h.step e)
+
+theorem RepInv.reach (evs : List RepEv) : RepInv (RepSys.run {} evs) := RepInv.init.run evs
+
 end Rzmq
